@@ -1149,7 +1149,12 @@ def run_reupload_pair(ctx, model, focus):
             ctx.count("%s/outcome/%s" % (stream, pair.impl_result[1] if pair.impl_result[0] == "raise" else "ok"))
             if pair.impl_result == ("raise", "hang"):
                 break
-            if pair.impl_result[0] == "raise" and str(pair.impl_result[1]).startswith("foreign") and focus in ("C13", "C05"):
+            # a `Program:` symbol INSIDE a program scope (a table no controller produces; the generator adds it on purpose) makes
+            # the real upload raise RuntimeError (dict changed size during iteration) — a recorded observation (DESIGN 12.6)
+            # that the model mirrors; not judged here
+            ghost = any(s_.name.startswith("Program:") for _, syms in p["programs"] for s_ in syms)
+            if pair.impl_result[0] == "raise" and str(pair.impl_result[1]).startswith("foreign") and focus in ("C13", "C05") \
+                    and not (ghost and str(pair.impl_result[1]).endswith("RuntimeError")):
                 ctx.violation("get-tag-list-raises-foreign:%s" % str(pair.impl_result[1]).split(":")[-1],
                               {k_: v_ for k_, v_ in case.items() if k_ != "scenario"}, "get_tag_list raised %s" % (pair.impl_result[1],))
             verdict = compare_open(ctx, stream, case, pair)
